@@ -371,4 +371,76 @@ theorem doAwaitStatusResponse_next (c c' : Ctx) (now : Int) (a : Nat) (hst : c.s
       subst this; subst hc'
       simpa using hn
 
+/-! ## One whole poll, any start state -/
+
+theorem wake_holding (s : Station) (h : Holding s.wake) : Holding s := by
+  rcases wake_cases s with hw | ⟨hw, -⟩
+  · rw [hw] at h; exact h
+  · rw [hw] at h
+    rcases h with ⟨d, fcd, h⟩ | ⟨a, d, h⟩ <;> cases h
+
+/-- A poll that does not start inside a token visit keeps the turn — or resets it to application 0
+(duplicate-address detection in `ListenToken` → `set_offline`). -/
+theorem poll_keep (s : Station) (apps : Apps) (now : Int) (phy : Bool) (rx : Bytes) (c' : Ctx)
+    (hh : ¬ Holding s) (h : s.poll apps now phy rx = .ok c') :
+    c'.s.nextApp = s.nextApp ∨ c'.s.nextApp = 0 := by
+  unfold Station.poll pollInner at h
+  cases hon : s.online with
+  | false =>
+    simp only [hon] at h
+    cases hst : s.st <;> simp only [hst] at h <;> cases h
+    exact .inl rfl
+  | true =>
+    simp only [hon] at h
+    obtain ⟨c1, hs, h⟩ := bind_ok_inv h
+    have := pollStart_inv _ _ hs
+    subst this
+    rcases ite_inv h with ⟨_, h⟩ | ⟨_, h⟩
+    · cases h; exact .inl (by simp [upd, markBA_nextApp, wake_nextApp])
+    · have hh' : ¬ Holding s.wake := fun hw => hh (wake_holding s hw)
+      have hon1 : (checkBusActivity s.wake now rx.length).online = true := by rw [checkBA_online, wake_online]; exact hon
+      have hn1 : (checkBusActivity s.wake now rx.length).nextApp = s.nextApp := by rw [checkBA_nextApp, wake_nextApp]
+      unfold dispatch at h
+      simp only [upd] at h
+      cases hst : s.wake.st with
+      | offline => rw [checkBA_st, hst] at h; cases h
+      | passiveIdle => rw [checkBA_st, hst] at h; cases h
+      | useToken d fcd => exact absurd (.inl ⟨d, fcd, hst⟩) hh'
+      | awaitData a d => exact absurd (.inr ⟨a, d, hst⟩) hh'
+      | listenToken sr coll =>
+        have hst1 : (checkBusActivity s.wake now rx.length).st = .listenToken sr coll := by rw [checkBA_st]; exact hst
+        rw [hst1] at h
+        have := doListenToken_next _ c' now sr coll hon1 hst1 h
+        unfold KeepOrReset at this
+        rw [hn1] at this; exact this
+      | activeIdle sr np coll =>
+        have hst1 : (checkBusActivity s.wake now rx.length).st = .activeIdle sr np coll := by rw [checkBA_st]; exact hst
+        rw [hst1] at h
+        have := doActiveIdle_next _ c' now sr np coll hst1 h
+        unfold Keep at this
+        rw [hn1] at this; exact .inl this
+      | claimToken step =>
+        have hst1 : (checkBusActivity s.wake now rx.length).st = .claimToken step := by rw [checkBA_st]; exact hst
+        rw [hst1] at h
+        have := doClaimToken_next 2 _ c' now step hst1 h
+        unfold Keep at this
+        rw [hn1] at this; exact .inl this
+      | passToken g att =>
+        have hst1 : (checkBusActivity s.wake now rx.length).st = .passToken g att := by rw [checkBA_st]; exact hst
+        rw [hst1] at h
+        have := doPassToken_next _ c' now g att hst1 h
+        rw [hn1] at this; exact .inl this
+      | checkTokenPass att =>
+        have hst1 : (checkBusActivity s.wake now rx.length).st = .checkTokenPass att := by rw [checkBA_st]; exact hst
+        rw [hst1] at h
+        have := doCheckTokenPass_next _ c' now att hst1 h
+        unfold Keep at this
+        rw [hn1] at this; exact .inl this
+      | awaitStatus a =>
+        have hst1 : (checkBusActivity s.wake now rx.length).st = .awaitStatus a := by rw [checkBA_st]; exact hst
+        rw [hst1] at h
+        have := doAwaitStatusResponse_next _ c' now a hst1 h
+        unfold Keep at this
+        rw [hn1] at this; exact .inl this
+
 end PV
